@@ -120,3 +120,24 @@ Proof.
     reflexivity.
   - pyrun. reflexivity.
 Qed.
+
+(* x ** 2 on floats *)
+Lemma Rpow_2 x : Rpow x 2 = x * x.
+Proof.
+  unfold Rpow. destruct (Rlt_dec 0 x) as [Hx | Hx].
+  - replace 2 with (INR 2) by (simpl; lra). rewrite Rpower_pow by assumption. simpl. ring.
+  - assert (E : is_int 2 = true).
+    { unfold is_int. apply Reqb_true. rewrite Rfloor_IZR. reflexivity. }
+    rewrite E, Rfloor_IZR. simpl. ring.
+Qed.
+
+Lemma num_pow_2 s : num_pow Rops (VFloat s) (VInt 2) = VFloat (s * s).
+Proof.
+  rewrite <- Rpow_2.
+  assert (E : is_int 2 = true).
+  { unfold is_int. apply Reqb_true. rewrite Rfloor_IZR. reflexivity. }
+  destruct (Rtotal_order s 0) as [H | [H | H]].
+  - pyrun_using ltac:(first [ rewrite Rfloor_IZR; lra | pylra ]). reflexivity.
+  - pyrun_using ltac:(first [ rewrite Rfloor_IZR; lra | pylra ]). reflexivity.
+  - pyrun_using ltac:(first [ rewrite Rfloor_IZR; lra | pylra ]). reflexivity.
+Qed.
